@@ -128,7 +128,11 @@ func (r Response) MarshalBinary() ([]byte, error) {
 	if err != nil {
 		return nil, fmt.Errorf("failed to marshal response: %w", err)
 	}
-	if unframed(r.Data) {
+	// Whether the serialised form is unframed is read off that form, as
+	// [ParseResponse] will: a response whose ContentLength was left at zero
+	// although its Body holds bytes, or one with a transfer coding other than
+	// chunked, is written close-delimited as well.
+	if dumped, err := http.ReadResponse(bufio.NewReader(bytes.NewReader(respBytes)), nil); err == nil && unframed(dumped) {
 		if i := bytes.Index(respBytes, []byte("\r\n\r\n")); i >= 0 {
 			line := fmt.Sprintf("\r\n%s: %d", bodyLengthField, len(respBytes)-(i+4))
 			respBytes = append(respBytes[:i:i], append([]byte(line), respBytes[i:]...)...)
